@@ -50,15 +50,33 @@ def run(ctx):
                 recs.append(dict(id="p%d" % k, e="pcut", cls=cls, raw2=raw4, res=P.decode(cls, raw4)))
                 k += 1
     # cross-codec: every v0/v1 datagram of the message codec
+    refused = 0
     for j in range(ctx.pick(700, 20000)):
         d = D.rand_tx(rng) if rng.random() < 0.3 else D.rand_rx(rng)
         legacy = rng.random() < 0.5
         m = D.mk_tx(d) if d["cls"] == "tx" else D.mk_rx(d)
-        raw = list(m.gen_msg(legacy))
+        try:
+            raw = list(m.gen_msg(legacy))
+        except Exception:
+            # the message codec refuses a message of the documented domain (C01 / C13 judge that); C17 is
+            # stated over what the message codec does produce: the same message with the burst length the
+            # message codec's own modulation table asks for
+            bl = getattr(getattr(m, "mod_type", None), "bl", None)
+            if not (d["cls"] == "rx" and d["burst"]["has"] and isinstance(bl, int) and 0 < bl <= 1000 and bl != len(d["burst"]["bits"])):
+                refused += 1
+                continue
+            d = dict(d, burst=dict(has=True, bits=D.rand_soft(rng, bl)))
+            m = D.mk_rx(d)
+            try:
+                raw = list(m.gen_msg(legacy))
+            except Exception:
+                refused += 1
+                continue
         cls = "v%d%s" % (d["ver"], "Tx" if d["cls"] == "tx" else "Rx")
         if d["cls"] == "tx" and legacy and d["ver"] == 0:
             continue            # the toolkit never pads L1 -> TRX messages; no Tx definition has a pad field
         recs.append(dict(id="x%d" % j, e="cross", cls=cls, m=d, legacy=legacy, raw=raw, res=P.decode(cls, raw)))
+    ctx.extra["messages_refused_by_the_message_codec"] = refused
     res, stats = tlc.validate_records("TrxdProtoTrace.tla", "TrxdProtoTrace.cfg", recs, scratch=ctx.scratch, parallel=5)
     ctx.add_tv("TV TrxdProtoTrace", stats, len(recs))
     byid = {r["id"]: r for r in recs}
